@@ -39,8 +39,8 @@ def main():
                 s = canon.dumps(tree)
                 import hashlib
                 rec["digests"].append(hashlib.sha256(s.encode()).hexdigest()[:24])
-                if rep == 0 and d["name"] in spec.get("want_tree", []):
-                    rec["tree"] = canon.canon(tree)
+                if d["name"] in spec.get("want_tree", []):
+                    rec.setdefault("trees", []).append(canon.canon(tree))
                     rec["types"] = [type(r).__name__ for r in rs]
             except Exception as e:
                 rec["digests"].append("EXC:" + type(e).__name__)
